@@ -125,7 +125,7 @@ PROPS['C02'] = dict(
     props='props/C02.v',
     models=['Cert'],
     harness='c02',
-    args=dict(quick=['-heights', '10', '-variants', '22'], escalated=['-heights', '30', '-variants', '30'], thorough=['-heights', '120', '-variants', '40']),
+    args=dict(quick=['-heights', '24', '-variants', '26'], escalated=['-heights', '60', '-variants', '34'], thorough=['-heights', '160', '-variants', '44']),
     fingerprint_groups=['Cert'],
     rule='a real controller.Controller is driven height by height; at every height the honest proposal is certified with REAL BLS signatures of a '
          'weighted committee (4-9 members incl. a 1-stake and a 0-stake member, sometimes a dominant one) and delivered through the real HandlePeerBlock '
